@@ -497,10 +497,15 @@ fn anf<'a>(
                 gensym,
                 *expr,
                 Box::new(move |expr_imm| {
-                    k(CExpr::EUnary {
-                        op: op_copy,
-                        expr: Box::new(expr_imm),
-                        ty: e_ty,
+                    let negated_unsigned_literal = matches!(op_copy, common_defs::UnaryOp::Neg)
+                        && matches!(&expr_imm, ImmExpr::ImmPrim { value, .. }
+                            if prim_integer_value(value).is_some_and(|(v, min, _)| min == 0 && v != 0));
+                    bind_imm_if(negated_unsigned_literal, gensym, expr_imm, move |expr_imm| {
+                        k(CExpr::EUnary {
+                            op: op_copy,
+                            expr: Box::new(expr_imm),
+                            ty: e_ty,
+                        })
                     })
                 }),
             )
@@ -524,11 +529,17 @@ fn anf<'a>(
                         gensym,
                         *rhs,
                         Box::new(move |rhs_imm| {
-                            k(CExpr::EBinary {
-                                op: op_copy,
-                                lhs: Box::new(lhs_imm),
-                                rhs: Box::new(rhs_imm),
-                                ty: e_ty.clone(),
+                            let (hoist_lhs, hoist_rhs) =
+                                go_constant_folding_would_fail(op_copy, &lhs_imm, &rhs_imm);
+                            bind_imm_if(hoist_lhs, gensym, lhs_imm, move |lhs_imm| {
+                                bind_imm_if(hoist_rhs, gensym, rhs_imm, move |rhs_imm| {
+                                    k(CExpr::EBinary {
+                                        op: op_copy,
+                                        lhs: Box::new(lhs_imm),
+                                        rhs: Box::new(rhs_imm),
+                                        ty: e_ty.clone(),
+                                    })
+                                })
                             })
                         }),
                     )
@@ -626,6 +637,86 @@ fn anf<'a>(
                 })
             }),
         ),
+    }
+}
+
+fn prim_integer_value(p: &Prim) -> Option<(i128, i128, i128)> {
+    Some(match p {
+        Prim::Int8 { value } => (*value as i128, i8::MIN as i128, i8::MAX as i128),
+        Prim::Int16 { value } => (*value as i128, i16::MIN as i128, i16::MAX as i128),
+        Prim::Int32 { value } => (*value as i128, i32::MIN as i128, i32::MAX as i128),
+        Prim::Int64 { value } => (*value as i128, i64::MIN as i128, i64::MAX as i128),
+        Prim::UInt8 { value } => (*value as i128, 0, u8::MAX as i128),
+        Prim::UInt16 { value } => (*value as i128, 0, u16::MAX as i128),
+        Prim::UInt32 { value } => (*value as i128, 0, u32::MAX as i128),
+        Prim::UInt64 { value } => (*value as i128, 0, u64::MAX as i128),
+        _ => return None,
+    })
+}
+
+fn prim_is_numeric_zero(p: &Prim) -> bool {
+    match p {
+        Prim::Float32 { value } => *value == 0.0,
+        Prim::Float64 { value } => *value == 0.0,
+        other => prim_integer_value(other).is_some_and(|(v, _, _)| v == 0),
+    }
+}
+
+fn go_constant_folding_would_fail(
+    op: common_defs::BinaryOp,
+    lhs: &ImmExpr,
+    rhs: &ImmExpr,
+) -> (bool, bool) {
+    use common_defs::BinaryOp;
+    let ImmExpr::ImmPrim { value: rhs, .. } = rhs else {
+        return (false, false);
+    };
+    if matches!(op, BinaryOp::Div) && prim_is_numeric_zero(rhs) {
+        return (false, true);
+    }
+    let ImmExpr::ImmPrim { value: lhs, .. } = lhs else {
+        return (false, false);
+    };
+    let (Some((a, min, max)), Some((b, _, _))) =
+        (prim_integer_value(lhs), prim_integer_value(rhs))
+    else {
+        return (false, false);
+    };
+    let exact = match op {
+        BinaryOp::Add => a.checked_add(b),
+        BinaryOp::Sub => a.checked_sub(b),
+        BinaryOp::Mul => a.checked_mul(b),
+        BinaryOp::Div => a.checked_div(b),
+        _ => return (false, false),
+    };
+    (exact.is_none_or(|v| v < min || v > max), false)
+}
+
+fn bind_imm_if<'a>(
+    bind: bool,
+    gensym: &'a Gensym,
+    imm: ImmExpr,
+    k: impl FnOnce(ImmExpr) -> AExpr + 'a,
+) -> AExpr {
+    if !bind {
+        return k(imm);
+    }
+    let ty = match &imm {
+        ImmExpr::ImmVar { ty, .. } | ImmExpr::ImmPrim { ty, .. } | ImmExpr::ImmTag { ty, .. } => {
+            ty.clone()
+        }
+    };
+    let name = gensym.gensym("t");
+    let body = k(ImmExpr::ImmVar {
+        name: name.clone(),
+        ty,
+    });
+    let body_ty = body.get_ty();
+    AExpr::ALet {
+        name,
+        value: Box::new(CExpr::CImm { imm }),
+        body: Box::new(body),
+        ty: body_ty,
     }
 }
 
